@@ -625,7 +625,68 @@ class Constructors(Suite):
     pass-through, list-of-instances and default-argument branches of both backends"""
 
     name = "constructors"
-    uses_model = False
+    uses_model = True
+    _gen = None
+
+    def generated(self):
+        """(module, name) of the helpers Gen/Builders.lean carries, and the parse_* dispatch tables"""
+        if Constructors._gen is None:
+            from . import core, translate_schema
+
+            views = translate_schema.load_views()
+            src = core.REPO / "src" / "chuk_mcp"
+            built, _ = translate_schema.find_builders(src, views["fallback"]["classes"])
+            parsers = translate_schema.find_parse_tables(src, views["fallback"]["classes"])
+            Constructors._gen = ({(b["module"], b["qual"]) for b in built}, {(p["module"], p["qual"]) for p in parsers})
+        return Constructors._gen
+
+    @staticmethod
+    def wire_args(v):
+        if isinstance(v, dict):
+            if "$model" in v:
+                return v["wire"]
+            if "$tuple" in v:
+                return [Constructors.wire_args(x) for x in v["$tuple"]]
+            return {k: Constructors.wire_args(x) for k, x in v.items()}
+        if isinstance(v, list):
+            return [Constructors.wire_args(x) for x in v]
+        return v
+
+    def model_line(self, case):
+        built, parsers = self.generated()
+        key = (case["module"], case["qual"])
+        if case.get("returns"):
+            wire = next(iter(case["kwargs"].values()))
+            if key in parsers:
+                return {"m": "schema", "op": "parseBy", "name": case["qual"], "j": schema_h.enc(wire)}
+            return {"m": "schema", "op": "validate", "cls": case["returns"], "j": schema_h.enc(wire)}
+        if key in built:
+            return {"m": "schema", "op": "build", "module": case["module"], "name": case["qual"],
+                    "j": schema_h.enc(self.wire_args(case["kwargs"]))}
+        return None
+
+    def model_obs(self, out, case):
+        if "driver_error" in out or out.get("untranslated"):
+            return {"skip": out.get("driver_error") or "untranslated"}
+        m = {"ok": out["ok"]}
+        if out["ok"]:
+            m["dump"] = schema_h.dec(out["dump"])
+            m["tree"] = out["tree"]
+        return m
+
+    def compare(self, case, o, m):
+        if "skip" in m:
+            return None if m["skip"] == "untranslated" else "driver: " + str(m["skip"])
+        for side in ("fallback", "pydantic"):
+            r = o[side]
+            if bool(r.get("ok")) != bool(m["ok"]):
+                return f"helper result accepted/raised differs from the {side} backend"
+            if m["ok"]:
+                if not schema_h.same(r.get("dump"), m["dump"]):
+                    return f"helper result dumps differently from the {side} backend"
+                if "tree" in r and r.get("tree") != m["tree"]:
+                    return f"helper result is typed differently from the {side} backend"
+        return None
 
     def ctors(self):
         from . import translate_schema
